@@ -179,7 +179,10 @@ func loadEnvInternal(env map[string]string, prefix string, prv reflect.Value) er
 		case rt.Elem() == reflect.TypeOf(""):
 			if ev, ok := env[prefix]; ok {
 				if ev == "" {
-					prv.Elem().Set(reflect.MakeSlice(prv.Elem().Type(), 0, 0))
+					if prv.IsNil() {
+						prv.Set(reflect.New(rt))
+					}
+					prv.Elem().Set(reflect.MakeSlice(rt, 0, 0))
 				} else {
 					if prv.IsNil() {
 						prv.Set(reflect.New(rt))
@@ -192,7 +195,10 @@ func loadEnvInternal(env map[string]string, prefix string, prv reflect.Value) er
 		case rt.Elem() == reflect.TypeOf(uint(0)):
 			if ev, ok := env[prefix]; ok {
 				if ev == "" {
-					prv.Elem().Set(reflect.MakeSlice(prv.Elem().Type(), 0, 0))
+					if prv.IsNil() {
+						prv.Set(reflect.New(rt))
+					}
+					prv.Elem().Set(reflect.MakeSlice(rt, 0, 0))
 				} else {
 					if prv.IsNil() {
 						prv.Set(reflect.New(rt))
@@ -217,7 +223,10 @@ func loadEnvInternal(env map[string]string, prefix string, prv reflect.Value) er
 		case rt.Elem() == reflect.TypeOf(float64(0)):
 			if ev, ok := env[prefix]; ok {
 				if ev == "" {
-					prv.Elem().Set(reflect.MakeSlice(prv.Elem().Type(), 0, 0))
+					if prv.IsNil() {
+						prv.Set(reflect.New(rt))
+					}
+					prv.Elem().Set(reflect.MakeSlice(rt, 0, 0))
 				} else {
 					if prv.IsNil() {
 						prv.Set(reflect.New(rt))
